@@ -44,6 +44,7 @@ struct Timer
 	int64_t expiry = 0;
 	uint64_t arm_seq = 0;
 	int wait = -1;         // index into waits, -1 none pending
+	bool cancelled_since_arm = false; // its place among equal expiries is then ambiguous
 };
 
 struct Work
@@ -124,7 +125,7 @@ struct Sched
 			Timer& t = timers[size_t(i)];
 			// the order rule speaks of waits pending together: a wait started on
 			// an expiry that had already passed "completes at once" instead
-			if (waits[size_t(t.wait)].start < waits[size_t(t.wait)].expiry)
+			if (waits[size_t(t.wait)].start < waits[size_t(t.wait)].expiry && !t.cancelled_since_arm)
 			{
 				waits[size_t(t.wait)].batch = batch;
 				waits[size_t(t.wait)].rank = rank++;
@@ -198,10 +199,15 @@ struct Sched
 		t.expiry = expiry;
 		t.armed = true;
 		t.arm_seq = ++seq;
+		t.cancelled_since_arm = false;
 		return r;
 	}
 
-	int cancel(int i, int actual) { return abort_wait(i, actual); }
+	int cancel(int i, int actual)
+	{
+		timers[size_t(i)].cancelled_since_arm = true;
+		return abort_wait(i, actual);
+	}
 
 	void destroy(int i)
 	{
